@@ -27,12 +27,13 @@ static rc::Gen<size_t> genOutLen(size_t maxlen) {
 // ------------------------------------------------------------------ C03
 static const char *C03MODE[8] = {"hash", "hasha", "xof", "xofa", "xof_fixed", "xofa_fixed", "cxof", "cxofa"};
 static rc::Gen<KV> gen_c03() {
-    return rc::gen::map(rc::gen::tuple(inRangeFull(0, 8), genBytes(3000, 8), genOutLen(4096), genDeclared(), genName(), genBytes(100, 8), rc::gen::arbitrary<bool>()),
+    return rc::gen::mapcat(rc::gen::tuple(inRangeFull(0, 8), genBytes(3000, 8), genOutLen(4096), genDeclared(), genName(), genBytes(100, 8), rc::gen::arbitrary<bool>()),
                         [](std::tuple<int, Bytes, size_t, uint64_t, std::string, Bytes, bool> t) {
+        return rc::gen::map(genChunks(std::get<1>(t).size(), 8), [t](std::vector<uint64_t> chunks) {
         KV c; c["mode"] = num(std::get<0>(t)); c["msg"] = hex(std::get<1>(t)); c["outlen"] = num(std::get<2>(t));
         c["declared"] = num(std::get<3>(t)); c["name"] = hex((const uint8_t *)std::get<4>(t).data(), std::get<4>(t).size());
-        c["custom"] = hex(std::get<5>(t)); c["nullname"] = num(std::get<6>(t) ? 1 : 0);
-        return c; });
+        c["custom"] = hex(std::get<5>(t)); c["nullname"] = num(std::get<6>(t) ? 1 : 0); c["chunks"] = numlist(chunks);
+        return c; }); });
 }
 static bool classify_c03(const KV &c, std::vector<std::string> &tags) {
     int mode = (int)tonum(c, "mode");
@@ -63,6 +64,15 @@ static std::string check_c03(const KV &c) {
         if (a) { ascon_hasha_state_t s; ascon_hasha_init(&s); ascon_hasha_update(&s, m.p, m.n); ascon_hasha_finalize(&s, o2.p); ascon_hasha_free(&s); }
         else { ascon_hash_state_t s; ascon_hash_init(&s); ascon_hash_update(&s, m.p, m.n); ascon_hash_finalize(&s, o2.p); ascon_hash_free(&s); }
         if (o2.bytes() != want) return M + " init/update/finalize differs from reference";
+        {   // the same message fed in generated pieces
+            Buf o3(32);
+            size_t pos = 0;
+            ascon_hasha_state_t sa; ascon_hash_state_t sh;
+            if (a) ascon_hasha_init(&sa); else ascon_hash_init(&sh);
+            for (uint64_t ch : tolist(c, "chunks")) { Buf p(Bytes(msg.begin() + pos, msg.begin() + pos + ch)); if (a) ascon_hasha_update(&sa, p.p, ch); else ascon_hash_update(&sh, p.p, ch); pos += ch; }
+            if (a) { ascon_hasha_finalize(&sa, o3.p); ascon_hasha_free(&sa); } else { ascon_hash_finalize(&sh, o3.p); ascon_hash_free(&sh); }
+            if (o3.bytes() != want) return M + " fed in pieces (" + tostr(c, "chunks") + ") differs from reference";
+        }
         return "";
     }
     Bytes want;
@@ -79,11 +89,13 @@ static std::string check_c03(const KV &c) {
     if (a) {
         ascon_xofa_state_t s;
         if (mode == 3) ascon_xofa_init(&s); else if (mode == 5) ascon_xofa_init_fixed(&s, (size_t)declared); else ascon_xofa_init_custom(&s, nm, cu.p, cu.n, (size_t)declared);
-        ascon_xofa_absorb(&s, m.p, m.n); ascon_xofa_squeeze(&s, o.nn(), outlen); ascon_xofa_free(&s);
+        { size_t pos = 0; for (uint64_t ch : tolist(c, "chunks")) { Buf p(Bytes(msg.begin() + pos, msg.begin() + pos + ch)); ascon_xofa_absorb(&s, p.p, ch); pos += ch; } if (tolist(c, "chunks").empty()) ascon_xofa_absorb(&s, m.p, m.n); }
+        ascon_xofa_squeeze(&s, o.nn(), outlen); ascon_xofa_free(&s);
     } else {
         ascon_xof_state_t s;
         if (mode == 2) ascon_xof_init(&s); else if (mode == 4) ascon_xof_init_fixed(&s, (size_t)declared); else ascon_xof_init_custom(&s, nm, cu.p, cu.n, (size_t)declared);
-        ascon_xof_absorb(&s, m.p, m.n); ascon_xof_squeeze(&s, o.nn(), outlen); ascon_xof_free(&s);
+        { size_t pos = 0; for (uint64_t ch : tolist(c, "chunks")) { Buf p(Bytes(msg.begin() + pos, msg.begin() + pos + ch)); ascon_xof_absorb(&s, p.p, ch); pos += ch; } if (tolist(c, "chunks").empty()) ascon_xof_absorb(&s, m.p, m.n); }
+        ascon_xof_squeeze(&s, o.nn(), outlen); ascon_xof_free(&s);
     }
     if (o.bytes() != want) return M + " (declared " + num(declared) + ", name " + num(name.size()) + " chars, custom " + num(custom.size()) + ", out " + num(outlen) + ") differs from reference: got " + hex(o.bytes()).substr(0, 64) + " want " + hex(want).substr(0, 64);
     // equivalences stated by the property
@@ -206,8 +218,13 @@ static rc::Gen<KV> gen_c05() {
     return rc::gen::map(rc::gen::tuple(inRangeFull(0, 8), genBytes(100, 8), genBytes(100, 8), genBytes(100, 8), hkdflen, count, reqs, genOutLen(300), genDeclared()),
                         [](std::tuple<int, Bytes, Bytes, Bytes, size_t, unsigned long, std::vector<uint64_t>, size_t, uint64_t> t) {
         KV c; int mode = std::get<0>(t); c["mode"] = num(mode); c["key"] = hex(std::get<1>(t)); c["salt"] = hex(std::get<2>(t)); c["info"] = hex(std::get<3>(t));
-        c["outlen"] = num(mode <= 1 ? std::get<4>(t) : (mode <= 5 ? std::min<size_t>(std::get<7>(t), 100) : std::get<7>(t)));
-        c["count"] = num(std::get<5>(t)); c["reqs"] = numlist(std::get<6>(t)); c["declared"] = num(std::get<8>(t));
+        size_t pb_out = std::min<size_t>(std::get<7>(t), 100);
+        unsigned long pb_count = std::get<5>(t);
+        // occasionally a PBKDF2 output longer than 255 blocks (block index >= 256), with a small count
+        size_t hk = std::get<4>(t);
+        if ((mode == 4 || mode == 5) && (hk == 8161 || hk == 9000)) { pb_out = hk == 9000 ? 16390 : hk + 40; if (pb_count > 2) pb_count = 1; }
+        c["outlen"] = num(mode <= 1 ? std::get<4>(t) : (mode <= 5 ? pb_out : std::get<7>(t)));
+        c["count"] = num(pb_count); c["reqs"] = numlist(std::get<6>(t)); c["declared"] = num(std::get<8>(t));
         return c; });
 }
 static bool classify_c05(const KV &c, std::vector<std::string> &tags) {
@@ -217,7 +234,7 @@ static bool classify_c05(const KV &c, std::vector<std::string> &tags) {
     bool nt = false;
     if (mode <= 1) { tags.push_back(outlen > 8160 ? "hkdf>limit" : outlen > 32 ? "hkdf-multiblock" : "hkdf<=1block"); nt = outlen > 32; }
     else if (mode <= 3) { uint64_t sum = 0; bool cross = false; for (uint64_t r : tolist(c, "reqs")) { if (sum <= 8160 && sum + r > 8160) cross = true; sum += r; } tags.push_back(cross ? "inc-crosses-limit" : "inc-below-limit"); nt = cross || sum > 32; }
-    else if (mode <= 5) { uint64_t cnt = tonum(c, "count"); tags.push_back(cnt == 0 ? "count=0" : cnt == 1 ? "count=1" : cnt == 2 ? "count=2" : cnt == 3 ? "count=3" : "count>3"); tags.push_back(outlen > 32 ? "pbkdf2-multiblock" : "pbkdf2<=1block"); nt = outlen > 32 || cnt >= 2; }
+    else if (mode <= 5) { uint64_t cnt = tonum(c, "count"); tags.push_back(cnt == 0 ? "count=0" : cnt == 1 ? "count=1" : cnt == 2 ? "count=2" : cnt == 3 ? "count=3" : "count>3"); tags.push_back(outlen > 8160 ? "pbkdf2>255blocks" : outlen > 32 ? "pbkdf2-multiblock" : "pbkdf2<=1block"); nt = outlen > 32 || cnt >= 2; }
     else nt = true;
     return nt;
 }
@@ -239,7 +256,10 @@ static std::string check_c05(const KV &c) {
     if (mode <= 3) {
         bool a = mode == 3;
         std::vector<uint64_t> reqs = tolist(c, "reqs");
-        Bytes full = ref::hkdf(a, key, salt, info, 8160);
+        uint64_t total = 0;
+        for (uint64_t r : reqs) total += r;
+        Bytes full = ref::hkdf(a, key, salt, info, (size_t)std::min<uint64_t>(8160, total));
+        full.resize(8160, 0);   // (bytes beyond what was computed are never compared)
         ascon_hkdf_state_t st; ascon_hkdfa_state_t sta;
         if (a) ascon_hkdfa_extract(&sta, k.p, k.n, s.p, s.n); else ascon_hkdf_extract(&st, k.p, k.n, s.p, s.n);
         size_t pos = 0;
